@@ -539,18 +539,30 @@ def fact_holds(f, n):
 
 
 def classify(fn, probe_var, fact, observed):
-    """F6 classes: the probed container is a std::set / std::map, the fact claims more elements than the execution has, and the
-    container received a unique-key insertion (insert / emplace / ...) resp. was built from an initialiser list with >= 2 items"""
+    """F6 / F02b classes.  Root: the probed container is a std::set / std::map, the fact claims more elements than the execution has,
+    and the container received a unique-key insertion (insert / emplace / ...) resp. was built from an initialiser list with >= 2
+    items.  Consequence: the probed container is another one, but the function branches on the size of such a set / map
+    (`v.size()` / `v.empty()` in a condition), so the wrong size fact decides which statements cppcheck thinks are executed."""
     kind, bound, v, _ = fact
-    claims_more = (kind == "K" and v > observed) or (kind == "I" and bound in ("P", "U") and v >= observed)
-    if not claims_more:
+    text = fn["text"]
+    def pattern(var):
+        decl = re.search(r"std::(set|map)<[^>]*>\s+%s\b" % var, text)
+        if not decl:
+            return None
+        ins = re.search(r"\b%s\.(insert|emplace|emplace_hint|try_emplace|insert_or_assign)\(" % var, text)
+        init = re.search(r"std::(set|map)<[^>]*>\s+%s\s*(=\s*)?\{[^;]*,[^;]*\};" % var, text)
+        if ins:
+            return "unique-associative-insert-counted-as-push"
+        if init:
+            return "unique-associative-initializer-list-counted-with-duplicates"
         return None
-    decl = re.search(r"std::(set|map)<[^>]*>\s+%s\b" % probe_var, fn["text"])
-    init = re.search(r"std::(set|map)<[^>]*>\s+%s\s*(=\s*)?\{[^;]*,[^;]*\};" % probe_var, fn["text"])
-    if init and not re.search(r"\b%s\.(insert|emplace|emplace_hint|try_emplace|insert_or_assign)\(" % probe_var, fn["text"]):
-        return "unique-associative-initializer-list-counted-with-duplicates"
-    if decl and re.search(r"\b%s\.(insert|emplace|emplace_hint|try_emplace|insert_or_assign)\(" % probe_var, fn["text"]):
-        return "unique-associative-insert-counted-as-push"
+    claims_more = (kind == "K" and v > observed) or (kind == "I" and bound in ("P", "U") and v >= observed)
+    root = pattern(probe_var)
+    if root and claims_more:
+        return root
+    for var in sorted(set(re.findall(r"std::(?:set|map)<[^>]*>\s+(\w+)", text))):
+        if var != probe_var and pattern(var) and re.search(r"(if|while|for) \([^\n]*\b%s\.(size|empty)\(\)" % var, text):
+            return pattern(var)
     return None
 
 
@@ -611,7 +623,11 @@ def run_e2e(ctx, res, n):
     def runk(k):
         obs, ok = {}, True
         for (a, b) in ARGS:
-            rc, out, err = core.sh([exe, str(k), str(a), str(b)], timeout=10, env={"ASAN_OPTIONS": "detect_leaks=0"})
+            rc, out, err = core.sh([exe, str(k), str(a), str(b)], timeout=60, env={"ASAN_OPTIONS": "detect_leaks=0"})
+            if rc == -999:      # a loaded machine, not the program: every generated loop is bounded by construction
+                rc, out, err = core.sh([exe, str(k), str(a), str(b)], timeout=600, env={"ASAN_OPTIONS": "detect_leaks=0"})
+            if rc == -999:
+                return None, obs
             if rc != 0 or "DONE" not in out:
                 ok = False
                 continue
@@ -646,6 +662,9 @@ def run_e2e(ctx, res, n):
     discarded = nfacts = 0
     for k, fn in enumerate(fns):
         ok, obs = native[k]
+        if ok is None:
+            res.oblig("e2e:native-runs-finish", False, "machinery", "a generated program did not finish within 10 minutes:\n" + fn["text"])
+            return
         if not ok:
             discarded += 1
             res.count("generator-discarded")
